@@ -14,6 +14,7 @@ import PonyVerif.Lemmas.TranslateMain
 import PonyVerif.Lemmas.Distinct
 import PonyVerif.Lemmas.SqlBEq
 import PonyVerif.Lemmas.Subquery
+import PonyVerif.Lemmas.QRel
 namespace PonyVerif.Props.C01
 open PonyVerif.Model.Q
 
@@ -338,5 +339,98 @@ theorem C01_agg_max (vals : List (Option Int)) :
       rcases List.mem_cons.1 hx with rfl | hx
       · exact h1
       · exact h2 x hx
+
+/-! ### one level of relationship: correlated EXISTS / NOT EXISTS / COUNT / IN over a collection -/
+
+/-- every child row is well typed for the child entity's schema -/
+def ChildrenWT (sch : Schema) (children : List Child) : Prop := ∀ c ∈ children, WT sch c.env
+
+theorem inner_ok (sch : Schema) (d : Dialect) (L : LikeFn) (e : Expr) (conds : SqlList)
+    (hc : checkConditions sch d e conds = true) (hL : LikeOK L d) (children : List Child) (hwt : ChildrenWT sch children) :
+    ∀ c ∈ children, InnerOK L d conds e c :=
+  fun c hcm => C01_checker_sound sch d L e conds hc hL c.env (hwt c hcm)
+
+/-- **C01_exists_collection** — `exists(e for e in p.es if cond)` (and `p.es` as a truth test, `cond` = True): for every parent key,
+    every child table (references may be NULL, any number of rows) and every inner condition of the fragment whose real conditions the
+    checker accepts, the correlated `EXISTS (SELECT 1 FROM E e WHERE p.id = e.fk AND conds)` evaluates without a type error to
+    Python's `any(cond(e) for e in p.es)`. -/
+theorem C01_exists_collection (sch : Schema) (d : Dialect) (L : LikeFn) (e : Expr) (conds : SqlList)
+    (hc : checkConditions sch d e conds = true) (hL : LikeOK L d) (pk : Int) (children : List Child) (hwt : ChildrenWT sch children) :
+    sqlExists L d pk conds children = some (pyExists pk children e) := by
+  simp only [sqlExists, subRows_eq L d pk conds e children (inner_ok sch d L e conds hc hL children hwt), filter_members, Option.map_some, pyExists]
+  congr 1
+  induction members pk children with
+  | nil => rfl
+  | cons c cs ih => simp only [List.filter_cons, List.any_cons]; cases pySelected c.env e <;> simp_all
+
+/-- **C01_not_exists_collection** — `not exists(…)` is two-valued and equals Python's `not any(…)` (no NULL trap: EXISTS is never unknown). -/
+theorem C01_not_exists_collection (sch : Schema) (d : Dialect) (L : LikeFn) (e : Expr) (conds : SqlList)
+    (hc : checkConditions sch d e conds = true) (hL : LikeOK L d) (pk : Int) (children : List Child) (hwt : ChildrenWT sch children) :
+    sqlNotExists L d pk conds children = some (!pyExists pk children e) := by
+  simp [sqlNotExists, C01_exists_collection sch d L e conds hc hL pk children hwt]
+
+/-- **C01_count_collection** — `count(e for e in p.es if cond)` = `len([e for e in p.es if cond(e)])`. -/
+theorem C01_count_collection (sch : Schema) (d : Dialect) (L : LikeFn) (e : Expr) (conds : SqlList)
+    (hc : checkConditions sch d e conds = true) (hL : LikeOK L d) (pk : Int) (children : List Child) (hwt : ChildrenWT sch children) :
+    sqlCountWhere L d pk conds children = some (pyCountWhere pk children e) := by
+  simp only [sqlCountWhere, subRows_eq L d pk conds e children (inner_ok sch d L e conds hc hL children hwt), filter_members, Option.map_some, pyCountWhere]
+
+/-- **C01_in_collection_attr** — `v in p.es.attr` / `v not in p.es.attr` with the IS NOT NULL guard Pony emits: IN / NOT IN over the
+    attribute values of the members is Python's membership among the values that are present. -/
+theorem C01_in_collection_attr (v pk : Int) (children : List Child) (attr : Child → Option Int) :
+    (sqlIn (some v) (subselect true (memberVals pk children attr)) = .tt ↔ pyIn v (memberVals pk children attr) = true) ∧
+    sqlNotIn (some v) (subselect true (memberVals pk children attr)) = K.ofBool (!pyIn v (memberVals pk children attr)) :=
+  ⟨C01_in_subquery v _ true, C01_not_in_guarded v _⟩
+
+/-- non-vacuity: two children, one with a NULL reference; `exists(e for e in p.es if not e.n)` -/
+example : sqlExists likeExec .sqlite 1
+    (.cons (.or (.cons (.cmp .eq (.column "n") (.value (.int 0))) (.cons (.isNull (.column "n")) .nil))) .nil)
+    [⟨some 1, env0⟩, ⟨none, env0⟩] = some true := by decide
+
+/-! ### navigation through a to-one reference (inner join) -/
+
+/-- **C01_join** — a condition that reads attributes of the referenced object (`e.parent.k`; modelled as attributes `parent.k` of the
+    joined row): for every table of (child, referenced parent or none) rows whose joined rows are well typed, and every condition of
+    the fragment the checker accepts, the inner join Pony emits returns exactly the rows whose reference is PRESENT and on which the
+    Python reading is true. -/
+theorem C01_join (sch : Schema) (d : Dialect) (L : LikeFn) (e : Expr) (conds : SqlList)
+    (hc : checkConditions sch d e conds = true) (hL : LikeOK L d) (rows : List JRow)
+    (hwt : ∀ r ∈ rows, ∀ p, r.parent = some p → WT sch (mergeEnv r.child p)) :
+    sqlJoin L d conds rows = some (rows.filter (fun r => r.parent.isSome && pySelected (pyRow r) e)) :=
+  sqlJoin_eq L d conds e rows (fun r hr p hp => C01_checker_sound sch d L e conds hc hL _ (hwt r hr p hp))
+
+/-- **C01_join_required** — for a REQUIRED reference (every row has its parent) the query returns what Python returns. -/
+theorem C01_join_required (sch : Schema) (d : Dialect) (L : LikeFn) (e : Expr) (conds : SqlList)
+    (hc : checkConditions sch d e conds = true) (hL : LikeOK L d) (rows : List JRow)
+    (hwt : ∀ r ∈ rows, ∀ p, r.parent = some p → WT sch (mergeEnv r.child p)) (hreq : ∀ r ∈ rows, r.parent.isSome = true) :
+    sqlJoin L d conds rows = some (rows.filter (fun r => pySelected (pyRow r) e)) := by
+  rw [C01_join sch d L e conds hc hL rows hwt]
+  congr 1
+  apply List.filter_congr
+  intro r hr; simp [hreq r hr]
+
+/-- the statement for an OPTIONAL reference (rows may lack their parent), LIKE-free expressions -/
+def C01_join_optional_full : Prop :=
+  ∀ (sch : Schema) (d : Dialect) (L : LikeFn) (e : Expr) (conds : SqlList) (rows : List JRow),
+    checkConditions sch d e conds = true → hasLike e = false → (∀ r ∈ rows, ∀ p, r.parent = some p → WT sch (mergeEnv r.child p)) →
+    sqlJoin L d conds rows = some (rows.filter (fun r => pySelected (pyRow r) e))
+
+def schJ : Schema where
+  attr n := if n = "op" then some (.int, true) else if n = "parent.k" then some (.int, false) else none
+  par _ := none
+
+/-- `e.op is None or e.op.k > 1` (the reference column `op` read as a nullable int) -/
+def eJ : Expr := .or (.cmp .is_ (.attr "op") .cNone) (.cmp .gt (.attr "parent.k") (.cInt 1))
+
+/-- It is false (known finding `optional-reference-navigation-inner-join-drops-rows`): a row whose reference is missing satisfies
+    `e.op is None` in Python, but the inner join drops it. -/
+theorem C01_join_optional_full_false : ¬ C01_join_optional_full := by
+  intro h
+  have hc : checkConditions schJ .sqlite eJ
+      (.cons (.or (.cons (.isNull (.column "op")) (.cons (.cmp .gt (.column "parent.k") (.value (.int 1))) .nil))) .nil) = true := by decide
+  let r : JRow := ⟨⟨fun _ => none, fun _ => .int 0⟩, none⟩
+  have hpy : pySelected (pyRow r) eJ = true := by decide
+  have := h schJ .sqlite likeExec eJ _ [r] hc (by decide) (by intro r' hr' p hp; simp at hr'; subst hr'; simp [r] at hp)
+  simp [sqlJoin, r, hpy] at this
 
 end PonyVerif.Props.C01
